@@ -272,8 +272,10 @@ def undo(patches):
 # refutation back ends: the same query under several z3 parameter sets, each in its own forked process doing the whole
 # solve -> rebuild -> native replay; the first counter-model wins.  (One parameter set alone is unstable on sequence-heavy
 # bounded queries: the same input took 10 s .. >90 s depending on seed / relevancy.)
+# 'plain': without the ground instances of string / ghost axioms that normally help -- with string equalities in the path condition
+# (e.g. uri == '#' + id) they make z3 time out where the plain query is sat in seconds
 REFUTE_CONFIGS = [{}, {'smt.relevancy': 0}, {'smt.relevancy': 0, 'smt.mbqi': False}, {'smt.arith.solver': 2},
-                  {'smt.relevancy': 0, 'smt.random_seed': 11}]
+                  {'smt.relevancy': 0, 'smt.random_seed': 11}, {'plain': True}, {'plain': True, 'smt.relevancy': 0, 'smt.mbqi': False}]
 REFUTE_SECONDS = 90
 
 
@@ -294,7 +296,8 @@ def refute_and_replay(o, frb, K, pid):
                 pass
             try:
                 for k, v in cfg.items():
-                    z3.set_param(k, v)
+                    if k != 'plain':
+                        z3.set_param(k, v)
                 res = _refute_one(o, frb, K, pid, cfg)
                 if isinstance(res, dict) and res.get('candidate_model_only') and not res.get('replayed'):
                     res = None      # an unconfirmed candidate model of an `unknown` query is not evidence
@@ -369,16 +372,18 @@ def _kill(cp, fd):
 def _refute_one(o, frb, K, pid, cfg):
     fs = list(o.assumptions) + [z3.Not(o.goal)]
     inst = []
-    for name, gen in solve.BI.AX_INST.items():
-        for app in solve.ground_apps(fs, name):
-            try:
-                inst.extend(gen(*app.children()))
-            except Exception:
-                pass
+    if not cfg.get('plain'):
+        for name, gen in solve.BI.AX_INST.items():
+            for app in solve.ground_apps(fs, name):
+                try:
+                    inst.extend(gen(*app.children()))
+                except Exception:
+                    pass
     s = z3.Solver()
     s.set('timeout', REFUTE_SECONDS * 1000)
     s.add(*inst)
-    s.add(*[f for _, f in solve.ghost_axiom_instances(fs)])
+    if not cfg.get('plain'):
+        s.add(*[f for _, f in solve.ghost_axiom_instances(fs)])
     s.add(*fs)
     import threading
     wd = threading.Timer(REFUTE_SECONDS + 5.0, z3.main_ctx().interrupt)
@@ -487,6 +492,25 @@ def _refute_one(o, frb, K, pid, cfg):
 
 def _real_function(fi):
     mo = importlib.import_module(fi.modname)
+    if getattr(fi, 'mutated', False):
+        # self-test only (in-memory mutant): the function under replay is the edited text, compiled in the module's own namespace
+        # (inside a class statement of the same name when it is a method, so that private-name mangling is the same)
+        import ast as _ast, copy as _copy
+        node = _copy.deepcopy(fi.node)
+        node.decorator_list = []
+        if fi.clsname:
+            holder = _ast.ClassDef(name=fi.clsname, bases=[], keywords=[], body=[node], decorator_list=[])
+            try:
+                holder.type_params = []
+            except Exception:
+                pass
+            tree = _ast.Module(body=[holder], type_ignores=[])
+        else:
+            tree = _ast.Module(body=[node], type_ignores=[])
+        _ast.fix_missing_locations(tree)
+        ns = {}
+        exec(compile(tree, '<mutant of %s>' % fi.qual, 'exec'), mo.__dict__, ns)
+        return ns[fi.clsname].__dict__[node.name] if fi.clsname else ns[node.name]
     obj = mo
     for p in fi.qual.split(':')[1].split('.'):
         obj = obj.__dict__[p] if isinstance(obj, type) else getattr(obj, p)
